@@ -400,7 +400,7 @@ Qed.
 
 Lemma dfinish_repl rm lb u off r0 o r : dfinish rm lb u off r0 = Repl o r ->
   o = off /\ (cont_start (hd 0 r) && lb = false \/ r = []) /\
-  ((r = r0 /\ (r0 = [38] -> cls (getz u (off + 1)) = false)) \/ (exists c, In (c, r) rm)).
+  ((r = r0 /\ (r0 = [38] -> cls (getz u (off + 1)) = false)) \/ (exists c, r0 = [c] /\ In (c, r) rm)).
 Proof.
   unfold dfinish. destruct ((off <? len u) && (getz u off =? 59) && (2 <? off + 1)); [|discriminate].
   destruct r0 as [|c [|c2 r2]].
@@ -408,7 +408,7 @@ Proof.
   - destruct (lookup_byte rm c) as [q|] eqn:El.
     + destruct (list_eqb q (slice u 0 (off + 1))); [discriminate|].
       intros H. apply dguard_repl in H. destruct H as (-> & -> & G). repeat split; [exact G|].
-      right. exists c. apply lookup_byte_in. exact El.
+      right. exists c. split; [reflexivity|]. apply lookup_byte_in. exact El.
     + destruct (c =? 38) eqn:E38.
       * destruct ((off + 1 <? len u) && (is_alnum (getz u (off + 1)) || (getz u (off + 1) =? 35))) eqn:G; [discriminate|].
         intros H. apply dguard_repl in H. destruct H as (-> & -> & G2). repeat split; [exact G2|]. left. split; [reflexivity|].
@@ -438,7 +438,7 @@ Proof.
   intros Hst Hrm. unfold decide.
   assert (Fin : forall o r0, dfinish rm lb u o r0 = Repl off r -> r0 = [38] \/ (r0 <> [] /\ inert_str r0) ->
             r <> [] /\ cont_start (hd 0 r) && lb = false /\ repl_shape rm u off r).
-  { intros o r0 H Hr0. apply dfinish_repl in H. destruct H as (-> & G & [[-> A]|(c & Hin)]).
+  { intros o r0 H Hr0. apply dfinish_repl in H. destruct H as (-> & G & [[-> A]|(c & _ & Hin)]).
     - destruct Hr0 as [->|[Hne Hi]].
       + split; [discriminate|]. split; [reflexivity|]. left. split; [reflexivity|apply A; reflexivity].
       + split; [exact Hne|]. split; [destruct G as [G|G]; [exact G|congruence]|]. right. left. split; assumption.
